@@ -247,6 +247,17 @@ def mut_id(m):
 AMBIENT = {'pars': False, 'trivia': False, 'pep8space': False, 'norm': False}
 
 
+def _dump_docstr_flat(tree):
+    import copy
+    tree = copy.deepcopy(tree)
+    for n in ast.walk(tree):
+        b = getattr(n, 'body', None)
+        if isinstance(n, (ast.Module, ast.FunctionDef, ast.AsyncFunctionDef, ast.ClassDef)) and b and isinstance(b[0], ast.Expr) and \
+                isinstance(b[0].value, ast.Constant) and isinstance(b[0].value.value, str):
+            b[0].value.value = '\n'.join(l.strip() for l in b[0].value.value.split('\n'))
+    return O.dump(tree)
+
+
 def run_history(fst, pi, hist, res, second=None, ambient=False):
     if ambient:  # the caller's ambient option defaults must not leak into reconcile()
         with fst.FST.options(**AMBIENT):
@@ -298,6 +309,11 @@ def _run_history(fst, pi, hist, res, second, tag):
         return None
     got = O.dump(ast.parse(out.src))
     if got != wd:
+        hl = sorted({m[2] for m in hist if m[0] in ('ins-expr', 'del') and len(m) > 2 and m[2] in ('decorator_list', 'bases')})
+        if hl and _dump_docstr_flat(ast.parse(out.src)) == _dump_docstr_flat(want):
+            # input side: the length of a decorator / base list changed (the definition is then put again from its AST, a known
+            # finding) and the definition holds a docstring with continuation lines; the difference is only their indentation
+            params = dict(params, header_list_length_changed=True, only_docstring_indentation_differs=True)
         res.fail(cid, 'result-differs-from-edited-ast',
                  f'src={src!r}\nresult={out.src!r}\nedited={ast.unparse(want)!r}\n' + O.first_diff(got, wd),
                  params, rep)
